@@ -267,6 +267,70 @@ Proof.
   apply H; [reflexivity|]. intros r i p [].
 Qed.
 
+(* ---- provenance: the store is only ever handed what the item itself reported ---- *)
+Lemma existsb_app_l {A} (f : A -> bool) a b : existsb f a = true -> existsb f (a ++ b) = true.
+Proof. intros H. rewrite existsb_app, H. reflexivity. Qed.
+
+Lemma provenance_more cmds more l : provenance_ok cmds l = true -> provenance_ok (cmds ++ more) l = true.
+Proof.
+  unfold provenance_ok. rewrite !forallb_forall. intros H e Hin. specialize (H e Hin).
+  destruct e; try exact H; now apply existsb_app_l.
+Qed.
+
+Lemma provenance_app cmds a b : provenance_ok cmds (a ++ b) = provenance_ok cmds a && provenance_ok cmds b.
+Proof. unfold provenance_ok. apply forallb_app. Qed.
+
+Lemma wtask_step_provenance cmds w s :
+  provenance_ok cmds (w_log w) = true ->
+  provenance_ok (cmds ++ handled [s]) (w_log (wtask_step persistent w s)) = true.
+Proof.
+  intros H. destruct s as [i p remotes|r|r]; cbn [wtask_step].
+  - cbn [w_log]. rewrite provenance_app, (provenance_more _ _ _ H). cbn [andb].
+    destruct (persistent i); [|reflexivity].
+    destruct p as [v|o]; cbn [handled flat_map app provenance_ok forallb]; rewrite andb_true_r, existsb_app;
+      apply orb_true_iff; right; cbn [existsb cmd_is_put cmd_is_mop]; rewrite N.eqb_refl.
+    + now rewrite Z.eqb_refl.
+    + now rewrite mop_eqb_refl.
+  - destruct (take_first r (w_queue w)) as [[[i p] q']|]; cbn [w_log]; [|now apply provenance_more].
+    rewrite provenance_app, (provenance_more _ _ _ H). unfold entry_of. cbn [fst snd]. now destruct p.
+  - destruct (take_first r (w_queue w)) as [[ip q']|]; cbn [w_log]; now apply provenance_more.
+Qed.
+
+Theorem write_task_provenance ss : provenance_ok (handled ss) (w_log (wtask_run persistent ss)) = true.
+Proof.
+  unfold wtask_run.
+  assert (H : forall cmds w, provenance_ok cmds (w_log w) = true ->
+            provenance_ok (cmds ++ handled ss) (w_log (fold_left (wtask_step persistent) ss w)) = true).
+  { induction ss as [|s ss IH]; intros cmds w Hw; cbn [fold_left].
+    - now apply provenance_more.
+    - replace (handled (s :: ss)) with (handled [s] ++ handled ss)
+        by (unfold handled; cbn [flat_map]; now rewrite app_nil_r).
+      rewrite app_assoc.
+      apply IH. now apply wtask_step_provenance. }
+  apply (H [] {| w_queue := []; w_log := [] |}). reflexivity.
+Qed.
+
+(* read at the store: a value found under an item's id after any crash was reported by that item *)
+Theorem stored_value_was_reported cmds l n i :
+  provenance_ok cmds l = true -> puts i (firstn n l) <> [] ->
+  existsb (cmd_is_put i (restored_value (replay (firstn n l)) i)) cmds = true.
+Proof.
+  intros H Hne.
+  assert (Hnd : no_delete i (firstn n l)).
+  { intros j Hin. apply In_firstn in Hin. unfold provenance_ok in H. rewrite forallb_forall in H.
+    specialize (H _ Hin). discriminate. }
+  rewrite (replay_value i _ Hnd).
+  assert (Hin : In (last (puts i (firstn n l)) 0%Z) (puts i (firstn n l))).
+  { destruct (puts i (firstn n l)) as [|x t] eqn:E; [congruence|].
+    destruct (exists_last (l := x :: t) ltac:(discriminate)) as (l' & a & ->). rewrite last_last.
+    apply in_or_app. right. now left. }
+  unfold puts in Hin. apply in_flat_map in Hin. destruct Hin as (e & He & Hv).
+  apply In_firstn in He. unfold provenance_ok in H. rewrite forallb_forall in H. specialize (H _ He).
+  destruct e as [j x|j|j o|r j x|r j o|r j|r j|r j]; try (now destruct Hv).
+  destruct (j =? i) eqn:E; [|now destruct Hv]. apply N.eqb_eq in E. subst j.
+  destruct Hv as [Hv|[]]. unfold puts. rewrite <- Hv. exact H.
+Qed.
+
 End Ok.
 
 (* ---- the initialiser's stream of updates rebuilds the stored map ---- *)
